@@ -198,3 +198,41 @@ var probeEvidence = []emitted{
 	// the same unchanged file attached twice: both attachments stay, also across compaction
 	hist(cNewTask("title", "A"), cResult("i1", "first", "r1.txt"), cResult("i1", "second", "r1.txt"), cCompact(), cListReady(), cCompact()),
 }
+
+// sizes beyond the exhaustively explored models (round 6 of the seeded changes): many results on
+// one task, many children in one epic behind an epic dependency, a chain of six epics
+func cListEpic(e string) Cmd { return Cmd{"name": "list_epic", "mode": "json", "epic": e} }
+func cClaimIn(e, a string) Cmd {
+	return Cmd{"name": "claim", "mode": "json", "agent": a, "epic": e}
+}
+
+var probeManyResults = []emitted{
+	hist(cNewTask("title", "A"), cResult("i1", "r1", "r1.txt"), cResult("i1", "r2", "r2.txt"), cResult("i1", "r3", "r1.txt"), cResult("i1", "r4", "sub/r3.txt"),
+		cResult("i1", "r5", "r1.txt"), cResult("i1", "r6", "r2.txt"), cResult("i1", "r7", "r1.txt"), cResult("i1", "r8", "r2.txt"), cResult("i1", "r9", "r1.txt"),
+		cResult("i1", "r10", "sub/r3.txt"), cListReady(), cCompact(), cResult("i1", "r11", "r2.txt"), cCompact()),
+}
+
+var probeManyChildren = []emitted{
+	hist(cNewEpic("E1"), cNewEpic("E2"), cSeq("i1", "i2"), cNewTask("title", "open", "epic", "i1"),
+		cNewTask("title", "c1", "epic", "i2"), cNewTask("title", "c2", "epic", "i2"), cNewTask("title", "c3", "epic", "i2"), cNewTask("title", "c4", "epic", "i2"),
+		cNewTask("title", "c5", "epic", "i2"), cNewTask("title", "c6", "epic", "i2"), cNewTask("title", "c7", "epic", "i2"),
+		cListEpic("i2"), cListReady(), cClaimIn("i2", "a1"), cSet("i3", "state", "done"), cListEpic("i2"), cClaimIn("i2", "a1")),
+	// three epics in a row: the middle one finished, the first one not
+	hist(cNewEpic("E1"), cNewEpic("E2"), cNewEpic("E3"), cSeq("i1", "i2", "i3"), cNewTask("title", "t1", "epic", "i1"), cNewTask("title", "t2", "epic", "i2"),
+		cNewTask("title", "t3", "epic", "i3"), cSet("i5", "state", "done"), cListReady(), cClaimIn("i3", "a1"), cSet("i4", "state", "done"), cListReady(), cClaimIn("i3", "a2")),
+}
+
+var probeLongChains = []emitted{
+	hist(cNewEpic("E1"), cNewEpic("E2"), cNewEpic("E3"), cNewEpic("E4"), cNewEpic("E5"), cNewEpic("E6"), cNewTask("title", "in E1", "epic", "i1"),
+		cSeq("i1", "i2", "i3", "i4", "i5", "i6"), cSeq("i6", "i1"), cSeq("i6", "i7"), cListReady()),
+	hist(cNewTask("title", "a"), cNewTask("title", "b"), cNewTask("title", "c"), cNewTask("title", "d"), cNewTask("title", "e"), cNewTask("title", "f"), cNewTask("title", "g"),
+		cSeq("i1", "i2", "i3", "i4", "i5", "i6", "i7"), cSeq("i7", "i1"), cSeq("i1", "i2", "i3", "i4", "i5", "zz"), cSeq("i7", "i6", "i5", "i4", "i3", "i2", "i1"), cListReady()),
+}
+
+// the wall clock steps back between commands
+func cClockBack() Cmd { return Cmd{"name": "clockback", "mode": "json"} }
+
+var probeClockBack = []emitted{
+	hist(cNewTask("title", "A"), cNewTask("title", "B"), cClockBack(), cClaim("a1"), cSet("i1", "title", "A2"), cSet("i2", "state", "done"), cListReady(), cCompact(), cListReady(), cCompact()),
+	hist(cNewEpic("E"), cNewTask("title", "A", "epic", "i1"), cClockBack(), cSet("i2", "epic", ""), cSet("i2", "body", "later but earlier"), cResult("i2", "r", "r1.txt"), cCompact(), cCompact()),
+}
